@@ -8,6 +8,7 @@ R02.2  dist_at_t equals the documented plain / RI / adaptive formula
 R02.3  tie branch stores 0 on both sides of the breakpoint
 R02.5  auxiliary spikes of the SPIKE kernels (mirrored outside the edges)
 R02.6  nearest-spike helper shape and call roles
+R02.8  every nearest-spike distance is defined by the search (or is a copy / the 0 of a shared spike)
 R03.3  constants stored by the discrete kernels (tie = (2,2) / 0 with multiplicity 2; coincidence marks both events)
 R04.2  leader = +1 sign table
 R07.3  discrete entries bounded by their multiplicity
@@ -447,6 +448,41 @@ def spike_spec(eng: SiblingEngine, fi: FuncInfo, profile: bool) -> List[Ob]:
                 obs.append(violation('R02.6', t, fi.loc(n), key=f"{fn}::min-dist-call::{ast.unparse(n)}", detail=ast.unparse(n)))
     if n_calls < 8:
         obs.append(inconclusive('R02.6', f"{fi.name}: at least 8 nearest-spike calls found", fi.loc(), f"{n_calls}", construct=fn))
+    # ---- R02.8 every nearest-spike distance comes from the search: a variable that holds the result of the nearest-spike
+    # helper anywhere in the kernel is, at each of its definitions, such a result, a copy of another such variable, or
+    # the literal 0 of a shared spike time.  An arithmetic shortcut (a difference of two particular times) is the
+    # distance to ONE spike, not to the nearest one.
+    dvars = set()
+    for n in ast.walk(fi.node):
+        if isinstance(n, ast.Assign) and len(n.targets) == 1 and isinstance(n.targets[0], ast.Name) and isinstance(n.value, ast.Call) \
+                and isinstance(n.value.func, ast.Name) and 'min_dist' in n.value.func.id:
+            dvars.add(n.targets[0].id)
+    grew = True
+    while grew:                 # a local that is copied INTO such a variable holds such a distance too
+        grew = False
+        for n in ast.walk(fi.node):
+            if isinstance(n, ast.Assign) and len(n.targets) == 1 and isinstance(n.targets[0], ast.Name) and isinstance(n.value, ast.Name) \
+                    and n.targets[0].id in dvars and n.value.id not in dvars and n.value.id not in params:
+                dvars.add(n.value.id)
+                grew = True
+    for n in ast.walk(fi.node):
+        if not (isinstance(n, (ast.Assign, ast.AugAssign, ast.AnnAssign))):
+            continue
+        tg = n.targets[0] if isinstance(n, ast.Assign) and len(n.targets) == 1 else getattr(n, 'target', None)
+        if not (isinstance(tg, ast.Name) and tg.id in dvars) or getattr(n, 'value', None) is None:
+            continue
+        v = n.value
+        t = (f"{fi.name} ({fi.path}): `{tg.id}` (a distance to the nearest spike of the other train) is defined by the nearest-spike "
+             f"search, a copy of such a distance, or 0 at a shared spike time")
+        if isinstance(n, ast.Assign) and ((isinstance(v, ast.Call) and isinstance(v.func, ast.Name) and 'min_dist' in v.func.id)
+                                          or (isinstance(v, ast.Name) and v.id in dvars)
+                                          or (isinstance(v, ast.Constant) and v.value in (0, 0.0) and not isinstance(v.value, bool))):
+            obs.append(ok('R02.8', t, fi.loc(n), construct=f"{fn}::dist-def::{tg.id}::{n.lineno - fi.node.lineno}"))
+        elif isinstance(n, ast.Assign) and isinstance(v, ast.Call):
+            obs.append(inconclusive('R02.8', t, fi.loc(n), f"`{ast.unparse(n)[:100]}`: unknown routine", construct=f"{fn}::dist-def::{tg.id}"))
+        else:
+            obs.append(violation('R02.8', t, fi.loc(n), key=f"{fn}::dist-def::{tg.id}::{ast.unparse(v)[:60]}",
+                                 detail=f"`{ast.unparse(n)[:120]}` computes the distance to one particular spike without the search"))
     # ---- R02.4 inter-spike interval of a train at the edges (same rule as the ISI kernels, R01.4): on every prologue
     # path and on every loop path on which a train steps onto its last spike, some local holds the edge-corrected
     # interval.  Values are compared on the path: conditional expressions are resolved by the path conditions, the
@@ -688,6 +724,42 @@ def _discrete_framing(eng, fi, post, ret, roles) -> List[Ob]:
     paths = _paths(eng, fi, [it for it in post if it[0] != 'return'])
     st, va, mp = ret[0], ret[1], ret[2]
     for n_path, (env, stores, conds) in enumerate(paths):
+        # trimming: every returned array is the prefix [0, counter+2) of the array the scan filled - framing entry 0, the
+        # `counter` events recorded in the loop, framing entry counter+1 - with one counter for all three
+        t = (f"{fi.name} ({fi.path}): the returned arrays are the prefixes [:counter+2] of the scanned arrays: the start entry, every "
+             f"event recorded by the scan, the end entry (path {n_path})")
+        uppers = []
+        good = True
+        ret_item = next((it for it in post if it[0] == 'return'), None)
+        ret_elts = list(ret_item[1].elts) if ret_item is not None and isinstance(ret_item[1], ast.Tuple) else []
+        finals = {}
+        for k_, r in enumerate(ret[:3]):
+            v = env.get(r)
+            if k_ < len(ret_elts):
+                # the trimming may be part of the return expression (`return st[:last+1], ...`)
+                try:
+                    v = C.canon_expr(ret_elts[k_], env)
+                except C.CanonError:
+                    v = None
+            finals[r] = v
+        for r in ret[:3]:
+            v = finals[r]
+            sa = C.single_atom(v) if v is not None and C.is_poly(v) else None
+            if not (sa is not None and sa[0] == 'sub' and sa[1] == ('n', r) and isinstance(sa[2], tuple) and sa[2] and sa[2][0] == 'slice'
+                    and (sa[2][1] is None or sa[2][1] == C.ZERO) and sa[2][2] is not None and (len(sa[2]) < 4 or sa[2][3] is None)):
+                good = False
+                continue
+            uppers.append(sa[2][2])
+        if good and len(set(uppers)) == 1:
+            cnt = C.sub(uppers[0], C.const(2))
+            good = C.single_atom(cnt) is not None and C.single_atom(cnt)[0] == 'n'
+        else:
+            good = False
+        if good:
+            obs.append(ok('R03.6', t, fi.loc(), construct=f"{fn}::trim::{n_path}"))
+        else:
+            obs.append(violation('R03.6', t, fi.loc(), key=f"{fn}::trim::{'|'.join(C.show(finals[r])[:40] if finals[r] is not None and C.is_poly(finals[r]) else '?' for r in ret[:3])}",
+                                 detail='; '.join(f"{r} = {C.show(finals[r]) if finals[r] is not None and C.is_poly(finals[r]) else '?'}" for r in ret[:3])))
         nonempty = any(c[0] == 'cmp' and c[1] == 'lt' for c in conds)   # N1+N2 > 0  ==  -(N1+N2) < 0
         byarr: Dict[str, List[tuple]] = {}
         for key, r in stores:
